@@ -59,6 +59,7 @@ type Program struct {
 	modFuncs  []*ssa.Function // all functions (incl. anonymous) of module packages
 	nAllFuncs int
 
+	helperTab       *helperTable
 	fieldOwnerCache map[*types.Var]string // per program: *types.Var identities differ between loads
 }
 
@@ -181,12 +182,22 @@ func (p *Program) Pos(pos token.Pos) string {
 
 // Func returns the package-level function `name` of the larking package, or nil.
 func (p *Program) Func(name string) *ssa.Function {
+	if !anchorTable[name] && os.Getenv("LARKCHECK_ANCHORS") != "" {
+		fmt.Fprintf(os.Stderr, "ANCHOR-MISSING %q\n", name)
+		return p.LarkSSA.Func(name)
+	}
+	must(anchorTable[name], "function %q is looked up by a rule but missing from anchorTable", name)
 	return p.LarkSSA.Func(name)
 }
 
 // Method returns method `name` declared on named type `typ` (pointer or value
 // receiver) of the larking package, or nil.
 func (p *Program) Method(typ, name string) *ssa.Function {
+	if !anchorTable[typ+"."+name] && os.Getenv("LARKCHECK_ANCHORS") != "" {
+		fmt.Fprintf(os.Stderr, "ANCHOR-MISSING %q\n", typ+"."+name)
+		return p.methodIn(p.Lark.Types, typ, name)
+	}
+	must(anchorTable[typ+"."+name], "method %s.%s is looked up by a rule but missing from anchorTable", typ, name)
 	return p.methodIn(p.Lark.Types, typ, name)
 }
 
